@@ -477,6 +477,14 @@ func (p *polling) DoClose(fn types.Callable) {
 			onClose()
 		}
 		p.shouldClose.Store(&shouldClose)
+		if p.Discarded() {
+			// discarded between the test above and the store: Discard found
+			// nothing to complete yet
+			if pending := p.shouldClose.Swap(nil); pending != nil {
+				(*pending)()
+			}
+			return
+		}
 		if p.Writable() {
 			// a poll installed between the test above and the store: it has
 			// not seen the pending close, and nothing else would answer it
